@@ -5,7 +5,6 @@ import (
 	"context"
 	"fmt"
 	"sync"
-	"time"
 
 	bs "github.com/danthegoodman1/bloomsearch"
 
@@ -109,7 +108,7 @@ func runC24(rc *RunCtx, i int) {
 				return stores.Action{}
 			}}
 		}
-		ctx, cancel := context.WithTimeout(context.Background(), 60*time.Second)
+		ctx, cancel := context.WithTimeout(context.Background(), core.Patience)
 		res := world.RunQuery(ctx, e, q)
 		cancel()
 		c.log.Plan = nil
@@ -404,7 +403,7 @@ func runC23(rc *RunCtx, i int) {
 			continue
 		}
 		e := c.w.Eng[qr.Intn(len(c.w.Eng))]
-		ctx, cancel := context.WithTimeout(context.Background(), 60*time.Second)
+		ctx, cancel := context.WithTimeout(context.Background(), core.Patience)
 		res := world.RunQuery(ctx, e, q)
 		cancel()
 		rc.Res.Eval(1)
